@@ -94,6 +94,8 @@ class Factory(object):
                      'Europe/Dublin', 'Pacific/Auckland', 'America/Los_Angeles', 'Europe/Berlin', 'Asia/Dubai', 'UTC', 'GMT']
             names = [n for n in names if os.path.exists('/usr/share/zoneinfo/' + n)]
             self.keys = [(n,) for n in names] + [('/usr/share/zoneinfo/Europe/Paris',), ('EST5EDT,M3.2.0,M11.1.0',), ('XYZ-5:30',)]
+            # the TZ-variable spelling with a leading colon is a name of its own
+            self.keys += [(':' + n,) for n in names[:3]] + [(':EST5EDT,M3.2.0,M11.1.0',)]
             self.keys = [k for k in self.keys if not k[0].startswith('/') or os.path.exists(k[0])]
 
     def norm(self, key):
